@@ -308,9 +308,11 @@ func (p *Program) lookupType(name string, pkg *types.Package) types.Type {
 }
 
 func (p *Program) importedPkg(from *types.Package, name string) *types.Package {
-	for _, imp := range from.Imports() {
-		if imp.Name() == name {
-			return imp
+	if from != nil {
+		for _, imp := range from.Imports() {
+			if imp.Name() == name {
+				return imp
+			}
 		}
 	}
 	// spec files may name any loaded package
